@@ -243,7 +243,7 @@ pub fn suites(check: &str, thorough: bool) -> (Vec<SeqSuite>, String) {
     }
 }
 
-fn cfg() -> RunCfg {
+pub fn cfg() -> RunCfg {
     RunCfg {
         oracles: vec![Oracle::Outcome, Oracle::DropOnce, Oracle::ExactlyOnce],
         kinds: vec![
